@@ -308,7 +308,8 @@ def _exec(sched, seed, topo):
             held = sum(len(w.at(d)) for d in w.HOLDING if d not in TOPO[topo].get('sourcing', []))
             w.log(op='rest', known=int(m.ball_controller.num_balls_known), idle=bool(idle), pending=pending,
                   states=[str(m.ball_devices[d].state) for d in DEVS], _over=len(w.at('pf')) - min(w.want, 3 - held),
-                  _phys=dict({d: len(w.at(d)) for d in DEVS}, pf=len(w.at('pf'))))
+                  _phys=dict({d: len(w.at(d)) for d in DEVS}, pf=len(w.at('pf'))),
+                  _late=len([1 for e in ev if e['op'] == 'leave' and e.get('kind') == 'late']))
 
         for si, s in enumerate(sched):
             op = s['op']
@@ -476,6 +477,9 @@ def classify(fe, topo):
         if not fe.get('idle', True):
             return 'rest:not-idle:%s' % '+'.join(st for st in fe.get('states', []) if st != 'idle')
         if '_phys' in fe and any(m.get(d) != n for d, n in fe['_phys'].items()):
+            if fe.get('_late', 0) > 0:
+                # a ball that arrived after its eject had timed out was booked twice or attributed to the wrong eject
+                return 'rest:count-mismatch:after-late-arrival'
             return 'rest:count-mismatch:%s' % '+'.join(sorted(d for d, n in fe['_phys'].items() if m.get(d) != n))
         if fe.get('_over', 0) < 0:
             return 'rest:under-delivered'
@@ -511,7 +515,7 @@ def report(ctx, pid, jobs, traces, rejected):
             continue
         what = '%s: line %s not explained by BallWorld spec: %s (prev %s)' % (kind, info.get('line'), fe, pe)
         # (the late-ball class does not depend on the topology: one signature for all)
-        ctx.violation('%s:%s:%s' % (pid, 'any' if kind.endswith(':late-ball') else jobs[i][2], kind), what, {'job': list(jobs[i]), 'trace': traces[i], 'info': info})
+        ctx.violation('%s:%s:%s' % (pid, 'any' if kind.endswith((':late-ball', ':after-late-arrival')) else jobs[i][2], kind), what, {'job': list(jobs[i]), 'trace': traces[i], 'info': info})
 
 
 def run(ctx):
